@@ -71,12 +71,15 @@ def check_python(report, table):
            "iam_policy_pb2": [("self._has_iam_overrides", False), ("self.has_iam_mixin", True)]}
     for k, v in exp.items():
         r1.instance(f"{k} under {v}")
+        r1.need(k in conds, f"mixin_api_methods: self._get_methods_from_service({k})",
+                "the merge of this mixin service is not a direct call under readable conditions (table- or loop-driven selection is not analysed)")
         r1.check(conds.get(k) == sorted(v), p, mm.node.lineno, f"{k} merged under {conds.get(k)}", f"methods of {k} must be exposed exactly under {v}")
     for prop, api_name in (("has_location_mixin", "google.cloud.location.Locations"), ("has_iam_mixin", "google.iam.v1.IAMPolicy"),
                            ("has_operations_mixin", "google.longrunning.Operations")):
         f = m.func(f"gapic.schema.api.API.{prop}")
         from ..pymodel import nmatch
         bb = nmatch(m, "any((_X_.name == _ANYN_ for _X_ in self.service_yaml_config.apis))", f)
+        r1.need(bb is not None, f"API.{prop}", "not of the form any(api.name == <constant> for api in self.service_yaml_config.apis) after normalisation")
         consts = [bb["_ANYN_"]] if bb else []
         r1.instance(prop)
         r1.check(consts == [repr(api_name)], p, f.node.lineno, f"{prop}: {consts}",
@@ -119,11 +122,17 @@ def check_python(report, table):
     # MIXINS_MAP
     mod = m.module("gapic.schema.mixins")
     mp = mod.assigns.get("MIXINS_MAP")
-    r1.need(isinstance(mp, ast.Dict), "MIXINS_MAP = {...}")
-    entries = {}
-    for k, v in zip(mp.keys, mp.values):
-        kws = {x.arg: ast.literal_eval(x.value) for x in v.keywords}
-        entries[k.value] = (ast.literal_eval(v.args[0]) if v.args else kws.get("name"), kws.get("request_type"), kws.get("response_type"))
+    r1.need(mp is not None, "MIXINS_MAP = ...")
+    # literal, comprehension over a module-level literal, or derived from the pb2 service descriptors: fold it (vlib/constfold.py)
+    from ..constfold import fold
+    from ..pyeval import UNKNOWN
+
+    def mixin_method(name=None, request_type=None, response_type=None):
+        return {"name": name, "request_type": request_type, "response_type": response_type}
+    folded = fold(m, "gapic.schema.mixins", "MIXINS_MAP", ctors={"wrappers.MixinMethod": mixin_method, "MixinMethod": mixin_method})
+    r1.need(folded is not UNKNOWN and isinstance(folded, dict) and all(isinstance(v, dict) and isinstance(k, str) for k, v in folded.items()),
+            "MIXINS_MAP", "the table does not fold to a constant {rpc name: MixinMethod(...)} mapping")
+    entries = {k: (v.get("name"), v.get("request_type"), v.get("response_type")) for k, v in folded.items()}
     r1.instance({"MIXINS_MAP": sorted(entries)})
     r1.check(set(entries) == set(table), mod.path, 0, f"MIXINS_MAP keys {sorted(entries)}", f"MIXINS_MAP must list exactly the methods of the three mixin services: {sorted(table)}")
     for x, (nm, rq, rs) in entries.items():
